@@ -25,7 +25,7 @@
    Tie to the code: (1) the Dependencies lists parsed from every generated *_gen.go file
    must equal jdeps; (2) every execution of the generated programs must make the calls,
    return the error and leave the results the model computes. *)
-From CffVerif Require Import FlowOpModel FlowOpProofs ValidateModel FlowBridge FlowAdequacy FlowComplete.
+From CffVerif Require Import FlowOpModel FlowOpProofs ValidateModel FlowBridge FlowAdequacy FlowComplete FlowListing.
 
 Theorem C02_schedule_independent :
   forall f sc, unique_providers f ->
@@ -129,6 +129,31 @@ Theorem C02_semantics_is_the_generated_code :
 Proof. exact semantics_is_the_generated_code. Qed.
 Print Assumptions C02_semantics_is_the_generated_code.
 
+(* ---- the order in which the tasks are listed does not matter: for two listings of the same
+   tasks (p: position in the second listing, q: back), the semantics of the second is the
+   semantics of the first with task indices renamed by p - for every type, hence for the
+   Results, and for every failure. By C02_semantics_is_the_generated_code this is a statement
+   about the generated code of both listings on all schedules. *)
+Theorem C02_listing_order_independent :
+  forall f f' p q,
+    length (gtasks f') = length (gtasks f) ->
+    (forall k, k < length (gtasks f) -> p k < length (gtasks f') /\ taskof f' (p k) = taskof f k /\ q (p k) = k) ->
+    (forall k', k' < length (gtasks f') -> q k' < length (gtasks f) /\ p (q k') = k') ->
+    gparams f' = gparams f -> gresults f' = gresults f ->
+    unique_providers f -> unique_providers f' ->
+    forall sc,
+      result_values f' (sc' q sc) = option_map (map (rename p)) (result_values f sc) /\
+      (forall n t, tval f' (sc' q sc) n t = option_map (rename p) (tval f sc n t)) /\
+      (forall k e pc tc, k < length (gtasks f) -> tresult f sc (fuel_of f) k = RFail e pc tc ->
+         tresult f' (sc' q sc) (fuel_of f') (p k) = RFail (rename_err p e) (omap p pc) (omap p tc)).
+Proof.
+  intros f f' p q Hl Hp Hq Hpa Hre U U' sc. split; [|split].
+  - apply (results_listing_independent f f' p q); assumption.
+  - intros n t. edestruct (listing_order f f' p q) as [Lv _]; eauto.
+  - intros k e pc tc. apply (failure_listing_independent f f' p q); assumption.
+Qed.
+Print Assumptions C02_listing_order_independent.
+
 (* ---- composition with Layer 0 (SchedFlowCompose). `reach` above is an assumption about the
    scheduler; this theorem discharges it: for every configuration of the scheduler model
    whose job graph contains the Dependencies of the generated jobs (what the harness compares
@@ -157,6 +182,22 @@ Definition ex_flow : fflow :=
                  {| kins := [0]; kouts := [2]; kpred := Some [1]; kinvoke := false; kfallback := false; khaserr := false |};
                  {| kins := [1; 2]; kouts := [3]; kpred := None; kinvoke := false; kfallback := false; khaserr := true |} ] |}.
 Definition ex_sc : scenario := {| sc_task := fun _ => OOK; sc_pred := fun _ => PTRUE |}.
+
+Definition ex_flow' : fflow :=
+  {| gparams := [0]; gresults := [3];
+     gtasks := [ nth 2 (gtasks ex_flow) ktask0; nth 0 (gtasks ex_flow) ktask0; nth 1 (gtasks ex_flow) ktask0 ] |}.
+Definition ex_p (k : nat) := match k with 0 => 1 | 1 => 2 | _ => 0 end.
+Definition ex_q (k : nat) := match k with 0 => 2 | 1 => 0 | _ => 1 end.
+
+Example C02_listing_witness :
+  unique_providers_b ex_flow' = true /\
+  (forall k, k < 3 -> ex_p k < 3 /\ taskof ex_flow' (ex_p k) = taskof ex_flow k /\ ex_q (ex_p k) = k) /\
+  result_values ex_flow' (sc' ex_q ex_sc) = option_map (map (rename ex_p)) (result_values ex_flow ex_sc) /\
+  result_values ex_flow' (sc' ex_q ex_sc) = Some [TmOut 0 0 [TmOut 1 0 [TmParam 0]; TmOut 2 0 [TmParam 0]]].
+Proof.
+  split; [reflexivity|]. split; [|split; reflexivity].
+  intros k Hk. destruct k as [|[|[|k]]]; try lia; repeat split; cbn; lia.
+Qed.
 
 Example C02_witness :
   unique_providers_b ex_flow = true /\ all_provided_b ex_flow = true /\
